@@ -51,6 +51,36 @@ RETS = {   # code -> (C++ return type, T method)
     "v": ("void", "ret_v"),
 }
 
+# --------------------------------------------------------------------- lattice
+# Class lattice exercising the derivation-depth part of the overload order:
+#   chain LS <- LP <- LR; shallow roots LT, LU (<- LV), LW; multiple inheritance leaves
+#   L1 : LR, LT (deep base first, shallow last)   L2 : LT, LR (shallow first, deep last)
+#   L3 : LP, LV (two bases of equal depth)        L4 : LX, LY with LX, LY : virtual LW (diamond)
+LATTICE = [("LS", []), ("LP", ["LS"]), ("LR", ["LP"]), ("LT", []), ("LU", []), ("LV", ["LU"]),
+           ("LW", []), ("LX", ["virtual LW"]), ("LY", ["virtual LW"]),
+           ("L1", ["LR", "LT"]), ("L2", ["LT", "LR"]), ("L3", ["LP", "LV"]), ("L4", ["LX", "LY"])]
+LATTICE_CLASSES = [c for c, _ in LATTICE]
+LATTICE_BASES = {}
+LATTICE_ROOTS = {}
+for _c, _bs in LATTICE:
+    _anc, _roots = [_c], []
+    for _b in _bs:
+        _b = _b.replace("virtual ", "")
+        for _x in LATTICE_BASES[_b]:
+            if _x not in _anc:
+                _anc.append(_x)
+        for _x in LATTICE_ROOTS[_b]:
+            if _x not in _roots:
+                _roots.append(_x)
+    LATTICE_BASES[_c] = tuple(_anc)
+    LATTICE_ROOTS[_c] = _roots or [_c]
+LATTICE_MI = ("L1", "L2", "L3", "L4")
+for _c in LATTICE_CLASSES:
+    _tag = "_tag_" + LATTICE_ROOTS[_c][0].lower()
+    CATS["p" + _c] = ("const %s *" % _c, None, ".op({p} ? &{p}->%s : nullptr)" % _tag)
+    CATS["r" + _c] = ("const %s &" % _c, None, ".o({p}.%s)" % _tag)
+LATTICE_VALUES = LATTICE_CLASSES + ["0", "str", "None", "VA", "object"]
+
 # ---------------------------------------------------------------------- values
 # value codes of the argument alphabet; the driver materialises them
 VALUES = ["0", "1", "-1", "i31m", "i31", "i63", "255", "256", "1.5", "True", "str", "bytes",
@@ -62,6 +92,13 @@ INSTANCE = {"VA": "VA", "VB": "VB", "VC": "VC", "VM": "VM"}
 # VM : public VC, public VA  (VA is the second base: its sub-object sits at a non-zero offset)
 BASES = {"VA": ("VA",), "VB": ("VB", "VA"), "VC": ("VC",), "VM": ("VM", "VC", "VA")}
 CAT_CLASS = {"pa": "VA", "pb": "VB", "pc": "VC", "ra": "VA"}
+PTR_CATS = PTR_CATS + tuple("p" + c for c in LATTICE_CLASSES)
+REF_CATS = REF_CATS + tuple("r" + c for c in LATTICE_CLASSES)
+for _c in LATTICE_CLASSES:
+    INSTANCE[_c] = _c
+    BASES[_c] = LATTICE_BASES[_c]
+    CAT_CLASS["p" + _c] = _c
+    CAT_CLASS["r" + _c] = _c
 
 
 def classify(cat, v):
@@ -144,7 +181,7 @@ def ctype_of(v, cats_here):
         ref = any(c in REF_CATS for c in cats_here)
         if ptr == ref:
             return None
-        return ("p" if ptr else "r") + v[1]
+        return ("p" if ptr else "r") + (v[1] if v[0] == "V" else v)
     return None
 
 
@@ -311,7 +348,7 @@ __published:
   int vt_ida() const;
   int vt_idc() const;
 };
-class VK {
+@@LATTICE_H@@class VK {
 __published:
   VK();
   VK(int v);
@@ -353,7 +390,7 @@ VM::VM() { VA::_tag.relabel("VM.a"); VC::_tag.relabel("VM.c"); }
 VM::VM(const VM &copy) : VC(copy), VA(copy) { VA::_tag.relabel("VM.a"); VC::_tag.relabel("VM.c"); }
 int VM::vt_ida() const { return VA::_tag.use(); }
 int VM::vt_idc() const { return VC::_tag.use(); }
-VK::VK() : _tag("VK"), _v(-7) {}
+@@LATTICE_T@@VK::VK() : _tag("VK"), _v(-7) {}
 VK::VK(int v) : _tag("VK"), _v(v) { vt::T t("VK::VK#int"); t.o(_tag).i(v); t.ret_v(); }
 VK::VK(const VK &copy) : _tag(copy._tag), _v(copy._v) {}
 VK::~VK() {}
@@ -364,6 +401,25 @@ VX::VX(const VX &copy) : _tag(copy._tag), _v(copy._v) {}
 VX::~VX() {}
 int VX::vt_id() const { return _tag.use(); }
 '''
+
+
+def _lattice_src():
+    h, t = [], []
+    for c, bs in LATTICE:
+        h.append("class %s%s {\n__published:\n  %s();\n"
+                 % (c, (" : " + ", ".join("public " + b for b in bs)) if bs else "", c))
+        if not bs:
+            h.append("  int vt_id_%s() const;\npublic:\n  VtTag _tag_%s;\n" % (c.lower(), c.lower()))
+            t.append('%s::%s() : _tag_%s("%s") {}\nint %s::vt_id_%s() const { return _tag_%s.use(); }\n'
+                     % (c, c, c.lower(), c, c, c.lower(), c.lower()))
+        else:
+            t.append("%s::%s() {}\n" % (c, c))
+        h.append("};\n")
+    return "".join(h), "".join(t)
+
+
+BASE_HEADER = BASE_HEADER.replace("@@LATTICE_H@@", _lattice_src()[0])
+BASE_TWIN = BASE_TWIN.replace("@@LATTICE_T@@", _lattice_src()[1])
 
 
 def render_header(atoms, guard):
@@ -469,6 +525,15 @@ def _targ(code, k):
         return None, "a->s[%d]" % k, "const char *"
     if code == "S":
         return "std::string x%d(a->s[%d]);" % (k, k), "x%d" % k, "std::string &"
+    if code[0] in "pr" and code[1] == "L":
+        cls = code[1:]
+        decl = "%s x%d;" % (cls, k)
+        for r in LATTICE_ROOTS[cls]:
+            decl += (' vt::trace_append("#a%d.%s=" + std::to_string(x%d._tag_%s.id));'
+                     % (k, r, k, r.lower()))
+        if code[0] == "p":
+            return decl, "&x%d" % k, "%s *" % cls
+        return decl, "x%d" % k, "%s &" % cls
     if code[0] in "pr" and code[1] in "ABCM":
         cls = "V" + code[1]
         if code[1] == "M":
@@ -594,6 +659,8 @@ def typings_of(a, values):
 
 
 def values_for(a, tier):
+    if a["fam"].startswith("lattice"):
+        return LATTICE_VALUES
     mx = max_args(a)
     if mx >= 2 and tier == "quick":
         return VALUES_QUICK2
@@ -632,6 +699,11 @@ PY_GROUP = {"i": "I", "c": "I", "l": "I", "e": "I", "d": "F", "b": "B", "s": "S"
             "pa": "A", "ra": "A", "pb": "A", "pc": "C", "rk": "K", "rx": "X"}
 
 
+for _c in LATTICE_CLASSES:
+    PY_GROUP["p" + _c] = "L"
+    PY_GROUP["r" + _c] = "L"
+
+
 def distinguishable(o1, o2):
     """Two overloads are kept in one set only if Python type categories can tell them apart
     for every argument count both accept (the property's quantifier), or if they differ by
@@ -651,6 +723,8 @@ def distinguishable(o1, o2):
                 ok = True            # bool vs anything: exact category wins in both worlds
             elif {a, b} == {"pa", "pb"}:
                 ok = True
+            elif ga == gb == "L" and a[0] == b[0] and a != b:
+                ok = True            # two classes of the lattice: C++ resolves or calls it ambiguous
         if n == 0:
             ok = False
         if not ok:
@@ -717,6 +791,28 @@ def oper_sets(add_oper, thorough):
         add_oper("()", ovs)
 
 
+LATTICE_TRIPLES = [("LS", "LP", "LR"), ("LR", "LT", "L1"), ("LT", "LR", "L2"), ("LP", "LV", "L3"),
+                   ("LX", "LY", "L4"), ("LS", "LR", "L1"), ("LW", "LX", "L4"), ("LP", "LR", "L2"),
+                   ("LS", "LU", "L3")]
+
+
+def lattice_sets(add, kinds, thorough):
+    """Overload sets over every pair (selected triples) of lattice classes, by pointer and by
+    const reference, called with an instance of every class of the lattice."""
+    j = 0
+    for pr in ("p", "r"):
+        for c1, c2 in itertools.combinations(LATTICE_CLASSES, 2):
+            if pr == "r" and not thorough and c1 not in LATTICE_MI and c2 not in LATTICE_MI:
+                continue
+            ovs = [make_ov([pr + c1]), make_ov([pr + c2])]
+            for k in ((kinds[j % 4], kinds[(j + 2) % 4]) if thorough else (kinds[j % 4],)):
+                add(k, ovs, "lattice-pair")
+            j += 1
+        for tr in LATTICE_TRIPLES:
+            add(kinds[j % 4], [make_ov([pr + c]) for c in tr], "lattice-triple")
+            j += 1
+
+
 def enumerate_atoms(tier):
     """Canonical, deterministic list of overload sets for the tier (simplest first)."""
     atoms = []
@@ -769,6 +865,7 @@ def enumerate_atoms(tier):
             add("free", [make_ov(["rx"]), make_ov([other])], "coerce")
         coerce_sets(add)
         oper_sets(add_oper, False)
+        lattice_sets(add, kinds, False)
         # arity 1 vs arity 2 with default (count overlap resolved by category / derivation)
         j = 0
         for c1, c2 in itertools.permutations(["i", "d", "s", "pa", "pb"], 2):
@@ -800,6 +897,7 @@ def enumerate_atoms(tier):
                 add(k, [s1, s2], "size2")
     coerce_sets(add)
     oper_sets(add_oper, True)
+    lattice_sets(add, kinds, True)
     # size 3 over arity <= 1 without defaults, every call convention
     plain = [s for s in sigs1 if not s["nd"] and s["ps"]]
     for trio in itertools.combinations(plain, 3):
